@@ -199,7 +199,11 @@ func decoderCalledBy(p *an.Prog, ck *ssa.Function) *ssa.Function {
 		{
 			if ci, ok := in.(ssa.CallInstruction); ok {
 				if f := ci.Common().StaticCallee(); f != nil && an.FnPkgPath(f) == storePkg && callsSuffix(f, "Encoding).DecodeString") {
-					found = f
+					// the pinned decoders: (hash string) -> (digest, salt, error); a differently shaped shared helper is
+					// not "the decoder renamed" — it is interpreted inline where it is called
+					if sg := f.Signature; sg.Params().Len() == 1 && sg.Results().Len() == 3 {
+						found = f
+					}
 				}
 			}
 		}
